@@ -168,7 +168,7 @@ func checkC15(c *core.Ctx) {
 		})
 		shards := 16
 		c.Stream("strings", shards, func(sh int, _ *rand.Rand) {
-			r, lines := runWorker(c, nil, 120, "parsestrings", "b#0123456789", fmt.Sprint(maxLen), fmt.Sprint(sh), fmt.Sprint(shards))
+			r, lines := runWorker(c, nil, 120, "parsestrings", "b#0123456789MmPAd", fmt.Sprint(maxLen), fmt.Sprint(sh), fmt.Sprint(shards))
 			if infra(c, r) {
 				return
 			}
@@ -568,6 +568,61 @@ func checkC15(c *core.Ctx) {
 			return
 		}
 		c.Nontrivial(sig + root.String())
+	})
+
+	// ---------- CLI level: a chord at the end of a chain of extends is described with every inherited note
+	// (chains of 9 .. 40 chords, one attribute each), and an attribute file may arrive through a pipe
+	c.Stream("chain", 12, func(i int, r *rand.Rand) {
+		depth := 9 + i*3
+		var as []userAttr
+		var cs []userChord
+		for k := 0; k < depth; k++ {
+			as = append(as, userAttr{Name: fmt.Sprintf("Zr%d", k), Degree: fmt.Sprint(1 + k%15)})
+			uc := userChord{Name: fmt.Sprintf("Zrun%d", k), Display: fmt.Sprintf("zrun%d", k), Attrs: []string{fmt.Sprintf("Zr%d", k)}}
+			if k > 0 {
+				uc.Extends = []string{fmt.Sprintf("Zrun%d", k-1), fmt.Sprintf("zrun%d", k-1)}[k%2]
+			}
+			cs = append(cs, uc)
+		}
+		root := roots[(i*4)%len(roots)]
+		args := []string{"info", "chord", "describe", "-t", root.String() + "_zrun" + fmt.Sprint(depth-1), "--chord", c.Scratch.File("chain-chord.yml", chordsYAML(cs))}
+		var stdin []byte
+		if i%2 == 0 {
+			args = append(args, "--attr", c.Scratch.File("chain-attr.yml", attrsYAML(as)))
+		} else {
+			args = append(args, "--attr", "/dev/stdin")
+			stdin = attrsYAML(as)
+		}
+		res := run(c, stdin, args...)
+		c.Eval(1)
+		if infra(c, res) {
+			return
+		}
+		sig := fmt.Sprintf("chain:%d", depth)
+		if a := abnormal(res); a != "" || !res.OK() {
+			c.Violate("chain", i, sig+":failed", fmt.Sprintf("info chord describe of the last chord of a chain of %d extends fails %s", depth, a), obs(res))
+			return
+		}
+		m, err := yamlMap(res.Stdout)
+		got := asList(m["attributes"])
+		if err != nil || len(got) != depth {
+			c.Violate("chain", i, sig+":count", fmt.Sprintf("the last chord of a chain of %d extends (one attribute each) is described with %d notes (err=%v)", depth, len(got), err), obs(res))
+			return
+		}
+		for k, a := range got {
+			am, _ := a.(map[string]any)
+			iv, _ := theory.ParseNotation(fmt.Sprint(1 + k%15))
+			want, _ := theory.Size(iv.N, iv.Q)
+			if mustInt(am["semitone"]) != want {
+				c.Violate("chain", i, sig+":size", fmt.Sprintf("inherited attribute %d of %d is reported with %d semitones, its definition says %d", k, depth, mustInt(am["semitone"]), want), obs(res))
+				return
+			}
+			if probs := describedNoteProblems(am, root, false); len(probs) > 0 {
+				c.Violate("chain", i, sig+":note", strings.Join(probs, "; "), obs(res))
+				return
+			}
+		}
+		c.Nontrivial(sig)
 	})
 }
 
